@@ -559,7 +559,7 @@ func init() {
 	reg(onlyGCN3, isaenc.VOP2, 24, Info{Name: "v_madak_f32", Src: [3]OpType{TF32, TF32, TF32}, Dst: TF32}, func(c *ctx) {
 		c.forActive(func(lane int) { mad(c, lane, c.srcF(0, lane), c.srcF(1, lane), c.s32(c.d.Src2)) })
 	})
-	fma3 := func(c *ctx, lane int, a, b, x uint32) { c.dstF(lane, fmaF32(a, b, x), fpIn32(a, b, x)) }
+	fma3 := func(c *ctx, lane int, a, b, x uint32) { c.dstF(lane, c.fma32(a, b, x), fpIn32(a, b, x)) }
 	reg(onlyCDNA3, isaenc.VOP2, 23, Info{Name: "v_fmamk_f32", Src: [3]OpType{TF32, TF32, TF32}, Dst: TF32}, func(c *ctx) {
 		c.forActive(func(lane int) { fma3(c, lane, c.srcF(0, lane), c.s32(c.d.Src2), c.srcF(1, lane)) })
 	})
@@ -688,7 +688,7 @@ func init() {
 	})
 	vop3(both, 460, "v_fma_f64", TF64, TF64, TF64, TF64, func(c *ctx, lane int) {
 		a, b, x := c.srcD(0, lane), c.srcD(1, lane), c.srcD(2, lane)
-		c.dstD(lane, fmaF64(a, b, x), fpIn64(a, b, x))
+		c.dstD(lane, c.fma64(a, b, x), fpIn64(a, b, x))
 	})
 	vop3(both, 462, "v_alignbit_b32", TB32, TB32, TSh, TB32, func(c *ctx, lane int) {
 		v := uint64(c.srcU(0, lane))<<32 | uint64(c.srcU(1, lane))
@@ -871,7 +871,7 @@ func init() {
 	// gfx90a+ packed FP32 (VOP3P opcodes 48..50 appear as 944..946 in the 10-bit VOP3 opcode field).
 	// Fields (VOP3P layout): op_sel = bits 13:11, op_sel_hi[2] = bit 14, op_sel_hi[1:0] = the OMOD
 	// field, neg_lo = the NEG field, neg_hi = the ABS field.
-	pk := func(op int, name string, nsrc int, f func(s [3]uint32) uint32) {
+	pk := func(op int, name string, nsrc int, f func(c *ctx, s [3]uint32) uint32) {
 		ts := [3]OpType{TPkF32, TPkF32}
 		if nsrc == 3 {
 			ts[2] = TPkF32
@@ -903,7 +903,7 @@ func init() {
 						hi[i] ^= 0x80000000
 					}
 				}
-				rl, rh := f(lo), f(hi)
+				rl, rh := f(c, lo), f(c, hi)
 				reg := int(d.Dst.N)
 				if d.Dst.Kind != isaenc.KVGPR || reg+1 > 255 {
 					unsupported("packed destination")
@@ -913,9 +913,9 @@ func init() {
 			})
 		})
 	}
-	pk(944, "v_pk_fma_f32", 3, func(s [3]uint32) uint32 { return fmaF32(s[0], s[1], s[2]) })
-	pk(945, "v_pk_mul_f32", 2, func(s [3]uint32) uint32 { return mulF32(s[0], s[1]) })
-	pk(946, "v_pk_add_f32", 2, func(s [3]uint32) uint32 { return addF32(s[0], s[1]) })
+	pk(944, "v_pk_fma_f32", 3, func(c *ctx, s [3]uint32) uint32 { return c.fma32(s[0], s[1], s[2]) })
+	pk(945, "v_pk_mul_f32", 2, func(_ *ctx, s [3]uint32) uint32 { return mulF32(s[0], s[1]) })
+	pk(946, "v_pk_add_f32", 2, func(_ *ctx, s [3]uint32) uint32 { return addF32(s[0], s[1]) })
 }
 
 // pkOut writes one FP32 half of a packed result.
